@@ -44,7 +44,7 @@ def _transition(kernel, interface, key, state):
     return out.model_state
 
 
-def tau2_events(rng, d=4, order=2, stale_change=True, nkeys=4, int_current=False, int_penalty=False):
+def tau2_events(rng, d=4, order=2, stale_change=True, nkeys=4, int_current=False, int_penalty=False, beta_scale=1.0):
     a0, b0 = rng.choice([(1.0, 0.5), (2.0, 0.005), (0.5, 1.5)])
     model, K = build_distreg(d, order, a0, b0, int_penalty)
     group = model.groups()["loc_np0"]
@@ -52,7 +52,8 @@ def tau2_events(rng, d=4, order=2, stale_change=True, nkeys=4, int_current=False
     interface = gs.LieselInterface(model)
     evs = []
     for step in range(3):
-        beta = np.asarray([rng.uniform(-1, 1) for _ in range(d)], np.float32)
+        # (beta_scale: coefficients on a very large or very small scale - the full conditional then sits far out)
+        beta = np.asarray([rng.uniform(-1, 1) * beta_scale for _ in range(d)], np.float32)
         model.vars["loc_np0_beta"].value = jnp.asarray(beta)
         a, b = a0, b0
         Kcur = K
@@ -194,21 +195,36 @@ def discrete_events(rng, kind, nkeys=64):
     # the value of the *variable* is read from (and, for the logits, written to) its value node by that node's name
     vnode = model.vars[vname].value_node.name
 
-    logits = [float(interface.log_prob(interface.update_state({vnode: jnp.asarray(o, dtype)}, state))) for o in outcomes]
-    keys = [jax.random.PRNGKey(rng.randrange(1 << 30)) for _ in range(nkeys)]
-    draws = [float(st[vnode].value) for st in (_transition(kernel, interface, k, state) for k in keys)]
-    replay = [float(outcomes[int(jax.random.categorical(k, jnp.asarray(logits, jnp.float32)))]) for k in keys]
-    guard = False
-    if draws != replay:
-        ks = jax.random.split(jax.random.PRNGKey(rng.randrange(1 << 30)), 4000)
-        f = jax.jit(jax.vmap(lambda k: _transition(kernel, interface, k, state)[vnode].value))
-        d = np.asarray(f(ks), np.float64)
-        probs = np.exp(np.asarray(logits) - np.max(logits))
-        probs /= probs.sum()
-        counts = np.array([(d == o).sum() for o in outcomes])
-        exp = probs * len(d)
-        keep = exp > 0
-        chi = ((counts[keep] - exp[keep]) ** 2 / exp[keep]).sum() + (np.inf if counts[~keep].sum() else 0)
-        guard = scipy.stats.chi2.sf(chi, max(1, keep.sum() - 1)) < 1e-9
-    return [{"ev": "discrete", "kind": kind, "outcomes": [fstr(o) for o in outcomes], "logits": [fstr(x) for x in logits],
-             "draws": [fstr(x) for x in draws], "draws_replay": [fstr(x) for x in replay], "guard_rejects": bool(guard)}]
+    def block(state):
+        logits = [float(interface.log_prob(interface.update_state({vnode: jnp.asarray(o, dtype)}, state))) for o in outcomes]
+        keys = [jax.random.PRNGKey(rng.randrange(1 << 30)) for _ in range(nkeys)]
+        draws = [float(st[vnode].value) for st in (_transition(kernel, interface, k, state) for k in keys)]
+        replay = [float(outcomes[int(jax.random.categorical(k, jnp.asarray(logits, jnp.float32)))]) for k in keys]
+        guard = False
+        if draws != replay:
+            probs = np.exp(np.asarray(logits) - np.max(logits))
+            probs /= probs.sum()
+
+            def rejects(d):
+                counts = np.array([(d == o).sum() for o in outcomes])
+                exp = probs * len(d)
+                keep = exp > 0
+                chi = ((counts[keep] - exp[keep]) ** 2 / exp[keep]).sum() + (np.inf if counts[~keep].sum() else 0)
+                return scipy.stats.chi2.sf(chi, max(1, keep.sum() - 1)) < 1e-9
+            ks = jax.random.split(jax.random.PRNGKey(rng.randrange(1 << 30)), 4000)
+            f = jax.jit(jax.vmap(lambda k: _transition(kernel, interface, k, state)[vnode].value))
+            # many fresh draws (jitted and batched), or the eager draws observed above: either sample refutes the law
+            guard = bool(rejects(np.asarray(f(ks), np.float64)) or rejects(np.asarray(draws, np.float64)))
+        return {"ev": "discrete", "kind": kind, "outcomes": [fstr(o) for o in outcomes], "logits": [fstr(x) for x in logits],
+                "draws": [fstr(x) for x in draws], "draws_replay": [fstr(x) for x in replay], "guard_rejects": bool(guard)}
+
+    evs = [block(state)]
+    # the same kernel object, called again (eagerly) on another model state: other data behind the sampled variable
+    for dname in ("y", "y1", "ydata"):
+        if dname in model.vars and not model.vars[dname].weak:
+            yv = np.asarray(model.vars[dname].value, np.float32)
+            model.vars[dname].value = jnp.asarray(yv * np.float32(0.25) - np.float32(0.8))
+            model.update()
+            evs.append(block(model.state))
+            break
+    return evs
